@@ -261,8 +261,8 @@ func c14GenA(r *core.Rng, idx int) c14Case {
 	leaf := func(n string, extra ...*yang.Stmt) *yang.Stmt {
 		return yang.S("leaf", n, append([]*yang.Stmt{yang.S("type", "string")}, extra...)...)
 	}
-	variant := (idx / 3) % 14
-	bad := idx%2 == 0
+	variant := (idx / 3) % 18
+	bad := (idx/3/18)%2 == 0 // (both polarities of every variant: the polarity changes once per cycle over the variants)
 	c.expect = "accept"
 	if bad {
 		c.expect = "reject"
@@ -370,6 +370,37 @@ func c14GenA(r *core.Rng, idx int) c14Case {
 		}
 		m.Add(yang.S("feature", "old-f", yang.S("status", "deprecated")), yang.S("feature", "new-f", yang.S("status", st), yang.S("if-feature", "old-f")))
 		c.what = st + " feature depending on a deprecated feature"
+	case 14, 15, 16, 17: // a reference to a deprecated definition two or more levels below the node that carries the status
+		st := "deprecated"
+		if bad {
+			st = "current"
+		}
+		var ref *yang.Stmt
+		switch variant {
+		case 14:
+			m.Add(yang.S("grouping", "old-g", yang.S("status", "deprecated"), leaf("gl")))
+			ref = yang.S("container", "mid", yang.S("uses", "old-g"))
+			c.what = "uses of a deprecated grouping two levels inside a " + st + " container"
+		case 15:
+			m.Add(yang.S("grouping", "old-g", yang.S("status", "deprecated"), leaf("gl")))
+			ref = yang.S("list", "mid", yang.S("key", "k"), leaf("k"), yang.S("choice", "ch", yang.S("case", "ca", yang.S("uses", "old-g"))))
+			c.what = "uses of a deprecated grouping behind a list and a case inside a " + st + " container"
+		case 16:
+			m.Add(yang.S("typedef", "old-t", yang.S("type", "string"), yang.S("status", "deprecated")))
+			ref = yang.S("container", "mid", yang.S("container", "mid2", yang.S("leaf", "x", yang.S("type", "old-t"))))
+			c.what = "leaf using a deprecated typedef three levels inside a " + st + " container"
+		default:
+			m.Add(yang.S("feature", "old-f", yang.S("status", "deprecated")))
+			ref = yang.S("container", "mid", leaf("x", yang.S("if-feature", "old-f")))
+			c.what = "leaf with if-feature on a deprecated feature two levels inside a " + st + " container"
+			ms.Features = append(ms.Features, m.Arg+":old-f")
+			c.feats = ms.Features
+		}
+		sp := yang.S("container", "sp", ref)
+		if st != "current" || variant%2 == 0 {
+			sp.Add(yang.S("status", st))
+		}
+		top.Add(sp)
 	default: // identity based on a more obsolete identity
 		st := "obsolete"
 		if bad {
